@@ -20,8 +20,8 @@ RULE = (
     "agreeing/disagreeing/N bases, bases outside the allele list) and a configuration (MAPQ threshold drawn around realised "
     "values, the three keep flags, read-group field SM/ID); every (file, locus, sample) read matrix is compared as a dict by "
     "read name with an independent CIGAR-walking pileup, then the encoded matrix / RCOUNT / SNVDP / DP / RCALLS / de-duplicated "
-    "read distributions, then the FORMAT fields printed by assemble; a fault variant writes one BAM against a reference that "
-    "differs at an SNV and requires an error. non-trivial dataset = >=1 alignment filtered out, >=1 indel/clip/skip over an "
+    "read distributions, then the FORMAT fields printed by assemble; fault variants (FASTA, all alignments, or only some later alignments of a "
+    "file made against a reference that differs at an SNV) require an error. non-trivial dataset = >=1 alignment filtered out, >=1 indel/clip/skip over an "
     "SNV, >=1 merged mate pair; distinct by decoded case"
 )
 ASSUMPTIONS = [
@@ -307,6 +307,20 @@ def check_fault(ctx, case):
             os.remove(paths["fasta"] + ".fai")
             pysam.faidx(paths["fasta"])
             expect_error = any(l["contig"] == snv["contig"] and l["start"] <= snv["pos"] < l["stop"] for l in spec["loci"])
+        elif mode == "alignment_partial":
+            # only SOME reads (typically not the first one in coordinate order) were aligned against a different base at the SNV
+            other = [b for b in "ACGT" if b != snv["alleles"][0]][0]
+            for locus in spec["loci"]:
+                if locus["contig"] == snv["contig"] and locus["start"] <= snv["pos"] < locus["stop"]:
+                    for b in spec2["bams"]:
+                        k = 0
+                        for r in sorted(b["reads"], key=lambda r: r["pos"]):
+                            if r["contig"] == snv["contig"] and D.overlaps(r, locus["start"], locus["stop"]) and D.read_passes(r, cfg) and snv["pos"] in D.aligned_bases(r):
+                                if k > 0 and (case.get("fault_bits", 0) >> (k - 1)) & 1:
+                                    r["md_ref"] = {str(snv["pos"]): other}
+                                    expect_error = True
+                                k += 1
+            paths = D.write_dataset(spec2, wd)
         else:
             # the alignments were made against a different base at the SNV
             other = [b for b in "ACGT" if b != snv["alleles"][0]][0]
@@ -331,7 +345,7 @@ def check_fault(ctx, case):
         out, err = CLI.run_inprocess("assemble", args)
         if err is None:
             header, samples, recs = CLI.parse_records(out)
-            problems.append(Problem("reference_mismatch:not_reported", "SNV %s:%d REF %s disagrees with the %s but assemble finished without error and printed %d records" % (snv["contig"], snv["pos"] + 1, snv["alleles"][0], "FASTA" if mode == "fasta" else "alignment reference (MD tag)", len(recs))))
+            problems.append(Problem("reference_mismatch:not_reported", "SNV %s:%d REF %s disagrees with the %s but assemble finished without error and printed %d records" % (snv["contig"], snv["pos"] + 1, snv["alleles"][0], "FASTA" if mode == "fasta" else ("alignment reference (MD tag)" if mode == "alignment" else "alignment reference (MD tag) of some reads that are not the first to cover it"), len(recs))))
         else:
             header, samples, recs = CLI.parse_records(out)
             bad = [r for r in recs if r["CHROM"] == snv["contig"] and r["POS"] - 1 <= snv["pos"] < int(r["INFO"].get("END", 0))]
@@ -361,7 +375,7 @@ def dataset_case(draw):
 @st.composite
 def fault_case(draw):
     spec = draw(D.dataset_spec(max_loci=2, max_reads=10, flags=True))
-    return {"kind": "fault", "spec": spec, "cfg": draw(config(spec)), "fault_snv": draw(st.integers(0, 50)), "fault_mode": draw(st.sampled_from(["fasta", "alignment"]))}
+    return {"kind": "fault", "spec": spec, "cfg": draw(config(spec)), "fault_snv": draw(st.integers(0, 50)), "fault_mode": draw(st.sampled_from(["fasta", "alignment", "alignment_partial"])), "fault_bits": draw(st.integers(1, 255))}
 
 
 def replay(ctx, case):
@@ -371,4 +385,4 @@ def replay(ctx, case):
 def run(ctx):
     q = ctx.quick
     ctx.hyp("dataset", dataset_case(), check_dataset, 90 if q else 250)
-    ctx.hyp("fault", fault_case(), check_fault, 40 if q else 150)
+    ctx.hyp("fault", fault_case(), check_fault, 60 if q else 220)
